@@ -283,9 +283,7 @@ func (conn *Conn) recv() {
 		// Responses that were completely received before the connection
 		// ended are still queued for decoding; deliver them before the
 		// remaining calls are failed.
-		drained := make(chan struct{})
-		pipeline.Schedule(func() { close(drained) })
-		<-drained
+		drain(pipeline)
 	}
 	conn.mutex.Lock()
 	conn.shutdown = true
@@ -303,16 +301,28 @@ func (conn *Conn) recv() {
 		}
 	}
 	conn.mutex.Unlock()
+	// Close runs the tasks still queued in the closing goroutine, possibly
+	// while the queue's worker is inside an earlier one; let the ordered
+	// queues drain first so that completions keep their order.
 	if conn.readSched != nil {
+		drain(conn.readSched)
 		conn.readSched.Close()
 	}
 	if conn.writeSched != nil {
+		drain(conn.writeSched)
 		conn.writeSched.Close()
 	}
 	if conn.readStream != nil {
 		conn.readStream.Close()
 	}
 	pipeline.Close()
+}
+
+// drain waits until every task scheduled on s so far has run.
+func drain(s scheduler.Scheduler) {
+	drained := make(chan struct{})
+	s.Schedule(func() { close(drained) })
+	<-drained
 }
 
 func (conn *Conn) read(ctx *Context, async bool) {
